@@ -114,14 +114,16 @@ namespace igris
 
             invalidate();
 
-            m_size = other.m_size;
-            m_data = m_alloc.allocate(m_size);
-            m_capacity = m_size;
+            m_data = m_alloc.allocate(other.m_size);
+            m_capacity = other.m_size;
+            // the size follows every constructed element: if a copy
+            // constructor throws, only what was built is owned (and destroyed)
             for (auto ip = other.m_data, op = m_data;
                  ip != other.m_data + other.m_size;
                  ip++, op++)
             {
                 igris::constructor(op, *ip);
+                m_size++;
             }
 
             return *this;
